@@ -270,6 +270,7 @@ def build_T18(tree):
     dec = top[0].orelse
     shas.append(span_sha(dec))
     split_expr = {}
+    type_guard = {}
 
     class Dec(ast.NodeTransformer):
         def visit_Try(self, node):
@@ -300,9 +301,20 @@ def build_T18(tree):
                 return None
             if t in ('decoded_coordinates_data', 'z_values', 'graphic_type', 'graphic_data', 'self._graphic_data'):
                 return None
+            if t == 'known_coordinate_type':
+                if v != "getattr(self,'_coordinate_type',None)":
+                    raise Unsupported('known_coordinate_type is no longer getattr(self, "_coordinate_type", None)')
+                type_guard['known'] = True
+                return None
             raise Unsupported('unexpected assignment in get_graphic_data: ' + ast.unparse(node)[:60])
 
         def visit_If(self, node):
+            if 'coordinate_type!=' in _norm(node.test) and 'point_indices' not in _norm(node.test):
+                # refusal of a coordinate type that contradicts what is known about the group
+                if not (len(node.body) == 1 and isinstance(node.body[0], ast.Raise) and not node.orelse):
+                    raise Unsupported('coordinate type guard changed shape')
+                type_guard.setdefault('ifs', []).append(node)
+                return None
             if 'point_indices' in _norm(node.test):
                 if not (len(node.body) == 1 and isinstance(node.body[0], ast.Raise) and not node.orelse):
                     raise Unsupported('index list guard changed shape')
@@ -334,6 +346,22 @@ def build_T18(tree):
     out.append(translate_block(blk, 'decodePlan', [('coordinate_type', 'int'), ('graphic_type', 'str')], attrs,
                                doc='`get_graphic_data` on a parsed group: (stored dimensionality, mode, sections) with mode 0 = '
                                    '`np.split` into `sections` equal parts, mode 1 = split at the indices derived from the index list'))
+    # the guards on the requested coordinate type, as their own program (they precede everything the plan describes)
+    try_at = [i for i, st in enumerate(dec) if isinstance(st, ast.Try)]
+    guard_at = [i for i, st in enumerate(dec) if isinstance(st, ast.If) and 'coordinate_type!=' in _norm(st.test)
+                and 'point_indices' not in _norm(st.test)]
+    if guard_at and (not try_at or max(guard_at) > try_at[0]):
+        raise Unsupported('a coordinate type guard no longer precedes the decoding')
+    tg_blk = list(type_guard.get('ifs', [])) + [ast.parse('return 0').body[0]]
+    for s2 in tg_blk:
+        ast.fix_missing_locations(s2)
+    if type_guard.get('ifs') and any('known_coordinate_type' in _norm(g0.test) for g0 in type_guard['ifs']) and not type_guard.get('known'):
+        raise Unsupported('known_coordinate_type is tested but never read from the object')
+    out.append(translate_block(tg_blk, 'coordTypeGuard', [('coordinate_type', 'int'), ('known_coordinate_type', 'optint')],
+                               {"hasattr(self, 'CommonZCoordinateValue')": ('bool', 'hasCommonZ')},
+                               doc='`get_graphic_data` on a parsed group: refusal (ValueError) of a requested coordinate type that '
+                                   'contradicts the type handed down by the containing instance (`_coordinate_type`) or a stored '
+                                   'CommonZCoordinateValue (3-D only); 0 = decoding goes ahead'))
     if set(split_expr) != {'split', 'indices', 'total', 'guard'}:
         raise Unsupported('index-list split expressions / validation not found in get_graphic_data: ' + ','.join(sorted(split_expr)))
     g = split_expr['guard']
@@ -475,13 +503,40 @@ def build_T18s(tree):
         raise Unsupported(f'get_annotation_group: match conditions changed: {conds}')
     filt_text, filt_sha = _build_filter(tree)
     sop_text, sop_sha = _build_sop_numbering(tree)
-    filt_text = filt_text + '\n\n' + sop_text
-    filt_sha = hashlib.sha256((filt_sha + sop_sha).encode()).hexdigest()
+    hand_text, hand_sha = _build_hand_down(tree)
+    filt_text = filt_text + '\n\n' + sop_text + '\n\n' + hand_text
+    filt_sha = hashlib.sha256((filt_sha + sop_sha + hand_sha).encode()).hexdigest()
     text = translate_block(blk, 'groupLookupDecision', [('number', 'optint'), ('uid', 'optint')], {'len(items)': ('int', 'nItems')},
                            doc='`get_annotation_group`: TypeError without a key; 1 = the groups whose number matches are used, '
                                '2 = the groups whose uid matches (`uid` stands for any non-None uid); ValueError unless exactly one '
                                '(`nItems` = number of matching items of the branch taken)')
     return text + '\n\n' + filt_text, span_sha(body) + filt_sha[:16]
+
+
+def _build_hand_down(tree):
+    """`MicroscopyBulkSimpleAnnotations.from_dataset`: every parsed group receives the instance's coordinate type"""
+    fn = find_func(tree, 'MicroscopyBulkSimpleAnnotations.from_dataset')
+    body = strip_doc(fn.body)
+    src = None
+    done = False
+    parsed_at = None
+    for i, st in enumerate(body):
+        if isinstance(st, ast.Assign) and _norm(st.targets[0]) == 'ann.AnnotationGroupSequence':
+            if _norm(st.value) != '[AnnotationGroup.from_dataset(item,copy=copy)foriteminann.AnnotationGroupSequence]':
+                raise Unsupported('SOP from_dataset: the groups are no longer parsed by AnnotationGroup.from_dataset(item, copy=copy)')
+            parsed_at = i
+        if isinstance(st, ast.Assign) and _norm(st.targets[0]) == 'coordinate_type':
+            src = _norm(st.value)
+        if isinstance(st, ast.For) and _norm(st.iter) == 'ann.AnnotationGroupSequence' and parsed_at is not None and i > parsed_at:
+            if len(st.body) == 1 and _norm(st.body[0]) == f'{_norm(st.target)}._coordinate_type=coordinate_type' and not st.orelse:
+                done = True
+    if parsed_at is None:
+        raise Unsupported('SOP from_dataset: parsing of the groups not found')
+    ok = done and src == 'AnnotationCoordinateTypeValues(ann.AnnotationCoordinateType)'
+    text = ('/-- `MicroscopyBulkSimpleAnnotations.from_dataset` gives every parsed group `_coordinate_type = '
+            'AnnotationCoordinateTypeValues(ann.AnnotationCoordinateType)` -/\n'
+            'def sopHandsDownCoordinateType : Bool := ' + ('true' if ok else 'false'))
+    return text, span_sha(body)
 
 
 def _build_sop_numbering(tree):
